@@ -105,7 +105,13 @@ def direct(seed, tier, model, stats):
             inv = lambda x: ripasso.applyInverseRCFilter(x, SR, kind, fc, order, DCgain=dc)
             for nm, x in signals(r, N):
                 tested["roundtrips"] += 2
-                scale = max(1.0, float(np.max(np.abs(np.fft.fft(x)))))
+                if (N + order) % 3 == 0 and not isinstance(x, list) and x.dtype.kind == "f":
+                    # the filters are linear: a signal of nanovolts is restored as well as one of volts
+                    x = x * r.choice([1e-9, 1e-6, 1e-3])
+                    nm += " (scaled down)"
+                    scale = float(np.max(np.abs(np.fft.fft(x))))
+                else:
+                    scale = max(1.0, float(np.max(np.abs(np.fft.fft(x)))))
                 for lab, y in (("inverse(filter(x))", inv(fwd(x))), ("filter(inverse(x))", fwd(inv(x)))):
                     e, k = spec_diff(y, x, N)
                     if e > TOL * kappa * scale * N:
@@ -173,8 +179,10 @@ def direct(seed, tier, model, stats):
         T = np.interp(np.abs(np.fft.fftfreq(N, 1 / SR)), fr, amp)
         kappa = float(T.max() / T.min())
         scale = max(1.0, float(np.max(np.abs(np.fft.fft(x)))))
+        # (the flag by keyword, or as the fifth positional argument)
         for lab, y in (("invert(apply(x))", ripasso.applyCustomTransferFunction(ripasso.applyCustomTransferFunction(x, SR, fr, amp), SR, fr, amp, invert=True)),
-                       ("apply(invert(x))", ripasso.applyCustomTransferFunction(ripasso.applyCustomTransferFunction(x, SR, fr, amp, invert=True), SR, fr, amp))):
+                       ("apply(invert(x))", ripasso.applyCustomTransferFunction(ripasso.applyCustomTransferFunction(x, SR, fr, amp, invert=True), SR, fr, amp)),
+                       ("invert(apply(x)), flag positional", ripasso.applyCustomTransferFunction(ripasso.applyCustomTransferFunction(x, SR, fr, amp, False), SR, fr, amp, True))):
             e, k = spec_diff(y, x, N)
             if e > TOL * kappa * scale * N:
                 fails.append({"what": f"custom transfer function: {lab} does not restore bin {k}: {e:.3e} (N={N}, {len(fr)} knots)",
